@@ -340,7 +340,38 @@ def concrete_eq(a, b):
     return concrete(a) == b if not isinstance(a, int) else a == b
 
 
-UNITS = [("pickle_roundtrip_of_a_field", pickle_unit)]
+def setitem_unit(U):
+    """the real FieldCollection.__setitem__: assigning through a position or a label writes the data of exactly ONE member
+    (the one at the position / the first one carrying the label -- labels may repeat, e.g. after fc.append(fc)) and leaves
+    every other member alone; an unknown label is a KeyError"""
+    labels = ["u", "v", "u", None]
+    cases = [(0, 0), (2, 2), (3, 3), ("u", 0), ("v", 1), ("w", None)]
+    for index, target in cases:
+        def body(it, index=index):
+            cls = it.module_attr(it.load_module("pde.fields.collection"), "FieldCollection")
+            members = [Instance(None, {"label": lab, "data": Opaque(f"data of member {k} before")}, name=f"member{k}", strict=False) for k, lab in enumerate(labels)]
+            before = [m.attrs["data"] for m in members]
+            fc = Instance(cls, {"_fields": members})
+            value = Opaque("assigned value")
+            it.call(it.getattr(fc, "__setitem__"), [index, value], {})
+            return members, before, value
+
+        for p, res in enumerate(explore_paths(U, body)):
+            P = prem_of(res.ctx)
+            nm = f"fc[{index!r}]=value.path{p}"
+            if target is None:
+                U.prove(f"{nm}.unknown_label_is_a_KeyError", P, z3.BoolVal(res.outcome == "raise" and res.exc.exc_type == "KeyError"))
+                continue
+            if res.outcome != "return":
+                U.prove(f"{nm}.returns_normally", P, z3.BoolVal(False), info={"exc": str(res.exc)})
+                continue
+            members, before, value = res.value
+            U.prove(f"{nm}.member{target}_gets_the_value", P, z3.BoolVal(members[target].attrs.get("data") is value))
+            U.prove(f"{nm}.no_other_member_is_written", P, z3.BoolVal(all(m.attrs.get("data") is b for k, (m, b) in enumerate(zip(members, before)) if k != target)),
+                    info={"written": [k for k, (m, b) in enumerate(zip(members, before)) if m.attrs.get("data") is not b]})
+
+
+UNITS = [("pickle_roundtrip_of_a_field", pickle_unit), ("FieldCollection.__setitem__", setitem_unit)]
 UNITS += [(f"FieldCollection.__init__[copy_fields={c}{',field given twice' if d else ''}]", collection_unit(c, d)) for c, d in ((False, False), (True, False), (False, True))]
 UNITS += [("FieldCollection.slice_append_copy", collection_derived_unit)]
 UNITS += [(f"{'inplace' if ip else 'binary'}_operation[other={ok}]", binary_unit(ok, ip)) for ip in (False, True) for ok in ("scalar", "field")] + [("unary_operation", unary_unit)]
@@ -360,3 +391,13 @@ TRUSTED = ["NumPy view/copy table of pdv/arrays.py (basic indexing = view, arith
 ASSUMPTIONS = ["'all sequences of operations' is reduced to each operation preserving the sharing/isolation invariants"]
 NOT_COVERED = ["tensor members of collections (reshape(-1, ..) merging two axes), FieldCollection.from_state / from_data re-linking, component views of vector and tensor fields, storages: bounded native check only",
                "dtypes other than float64/complex128 (component views of other dtypes are documented copies)"]
+
+
+def _layout_units():
+    """clause 'layout fixed as fields in order and tensor components row-major': FieldCollection.from_data cuts the flat array
+    into dim**rank rows per field in order -- the C14 contract of from_data, re-checked here because this property names the layout"""
+    from . import C14
+    return [(f"layout.{n}", f) for n, f in C14.UNITS if n == "FieldCollection.from_data"]
+
+
+UNITS += _layout_units()
